@@ -72,6 +72,7 @@ fn main() {
     common::install_quiet_panic_hook();
     obs::install();
     let code = match prop.as_str() {
+        "C03" | "C04" | "C07" | "C08" | "C16" | "C20" if ctx.replay.is_some() => c_vec::replay_vec(&ctx, c_vec::replay_cfg(&prop)),
         "C01" => c_raw::check_c01(&ctx),
         "C02" => c_raw::check_c02(&ctx),
         "C03" => c_vec::check_c03(&ctx),
